@@ -559,13 +559,22 @@ def verbatim_loads(rule, prog, ctor, adt_path, fields, what):
                     x = x.a[0]
                     continue
                 if x.k == "phi":
+                    def _empty_alt(a):
+                        a = strip_refs(a)
+                        while a.k in ("field", "downcast"):          # a component of `Default::default()` for a tuple of tables
+                            a = strip_refs(a.a[0])
+                        return a.k == "call" and not a.a[1] and a.a[0].endswith(("::default", "::new", "::default()"))
                     alts = [a for a in x.a[0] if not (strip_refs(a).k == "agg" and str(strip_refs(a).a[0]).endswith(("Option::None", "ControlFlow::Break")))
-                            and not (strip_refs(a).k == "call" and not strip_refs(a).a[1] and strip_refs(a).a[0].endswith(("::default", "::new")))]   # the empty table of another variant
+                            and not _empty_alt(a)]   # the empty table of another variant
                     if len(alts) == 1:
                         x = alts[0]
                         continue
                 if x.k == "agg" and str(x.a[0]).endswith(("Option::Some", "Result::Ok", "ControlFlow::Continue")) and len(x.a[1]) == 1:
                     x = x.a[1][0]
+                    continue
+                from engine import mir as _mir
+                if x.k == "agg" and len(x.a[1]) == 1 and x.t is not None and any(d["helper"] == x.t.get("adt") for d in _mir.DISSOLVE.values()):
+                    x = x.a[1][0]               # a private newtype around the table: the wrapped value is the field
                     continue
                 ok = False
                 break
